@@ -52,7 +52,7 @@ CLAIMS = {
               '(hi<<12)+lo = v mod 2^32, the U/I/S encoders accept them, and the field placed at bit 12 plus the sign-extended '
               'low part rebuilds v mod 2^32. Tie: relocate_hi/relocate_lo/sign_extend of the real module agree with the model on '
               '~60 k structured values (all low-12-bit patterns x upper classes, negative and >2^32 spellings); lui/auipc + '
-              'addi/lw/sw/jalr programs with %hi/%lo of literals, constants, labels and %position are assembled and decoded by the Lean spec.'),
+              'addi/lw/sw/jalr programs with %hi/%lo of literals, constants, labels and %position are assembled and decoded by the Lean spec. Whole programs (C07Program.lean): assemble_hi_lo_pair - a lui %hi(e) and any consumer of %lo(e) anywhere in a successful assembly decode to fields that rebuild value(e) mod 2^32 whenever e is position-free (labels, constants, %position); offset_pair_not_rebuilt is the counterexample for %offset.'),
         note=TB,
         ref='DESIGN.md §5 C07'),
 }
@@ -141,7 +141,7 @@ CLAIMS.update({
               'call_far_emitted). Tie and search: for every pseudo-instruction line (all 27, all register choices incl. rd=rs/x0/sp, li '
               'values on the 12-/32-bit edges, all distance classes incl. far call/tail) the code emitted by the REAL assembler, without '
               'and with -c, is executed by the Lean specification from 8 register files and compared with the documented effect. Known '
-              'findings KF-A6 / KF-D5: li whose operand depends on labels (width decided early).'),
+              'findings KF-A6 / KF-D5: li whose operand depends on labels (width decided early). Whole programs (C05Program*.lean): in every successful assembly, both modes, the bytes a pseudo-instruction contributes at its offset execute with the documented effect (assemble_li_effect for label-free operands, assemble_pseudo_branch_effect / jump / call / tail to labels of the returned table with link = pc + emitted size, assemble_unary_effect, assemble_jr_effect, assemble_misc_effect); hypotheses: non-negative literals, target label not shadowed by a constant, no hand-written c.* items when -c.'),
         note=TB + ' call_far_effect / tail_far_effect need an even pc (JALR clears bit 0); the hypothesis-free forms are *_raw.',
         ref='DESIGN.md §5 C05'),
     'C12': dict(
@@ -224,8 +224,8 @@ CLAIMS.update({
               'seeded interior and huge values in three spellings (fits -> Python int.to_bytes bytes, misfit -> AssemblerError); strings with '
               'escapes, quotes, #/,/() characters and 2-/3-/4-byte UTF-8; include_bytes with random contents (incl. empty) in the including '
               'directory / -i directories / several directories, decoy files of equal size in the cwd, three working directories, compared '
-              'with the file the documented search finds and with the Lean filesystem model; data lines inside whole programs.'),
-        note=TB + ' String escape processing is modelled for ASCII escapes; non-ASCII text is outside the Lean model (unsupported) but inside the oracle.',
+              'with the file the documented search finds and with the Lean filesystem model; data lines inside whole programs. Whole programs (C10Program.lean): assemble_sequence_value, assemble_pack_value (all 20 formats, data_width_table), data_unchanged_by_compression. Text (C10Text.lean, Spec/Utf8.lean): string_utf8 for every scalar value with an independent decoder (utf8_decode_encode), the escape theorems for the Latin-1 and the non-Latin-1 path.'),
+        note=TB + ' Non-ASCII text is modelled where the documentation puts it: in the text of string / error lines and in comments, in UTF-8 source files (C10Text: string_utf8, utf8_decode_encode, the escape theorems incl. the Latin-1 / non-Latin-1 paths); non-ASCII characters in the code part of a line, in include paths, lone-surrogate escapes and \\N{...} stay outside the model (unsupported, still judged by the oracle).',
         ref='DESIGN.md §5 C10'),
     'C11': dict(
         category='proof',
@@ -280,7 +280,7 @@ CLAIMS.update({
               'full of same-name same-size decoys) with absolute and relative main paths, both modes, and through the CLI with relative and '
               'absolute -i; bytes, ordered label table and constants must be equal everywhere and equal to the harness-spliced single '
               'source; the Lean model (asmfs) must reply the same on the same filesystem.'),
-        note=TB + ' Filesystem = absolute normalised POSIX paths; .. / non-normalised paths, symlinks, non-ASCII names or contents and include cycles (real code: RecursionError) are outside the model (counted, still covered by the oracle). The search order is the code\'s choice; the oracle splices with it. OS behaviour of os.path/open trusted.',
+        note=TB + ' Filesystem = absolute normalised POSIX paths; .. / non-normalised paths, symlinks, non-ASCII file names and include cycles (real code: RecursionError) are outside the model (counted, still covered by the oracle). The search order is the code\'s choice; the oracle splices with it. OS behaviour of os.path/open trusted.',
         ref='DESIGN.md §5 C14'),
     'C17': dict(
         category='proof',
